@@ -655,6 +655,88 @@ theorem ps_no_extra_peer (self : Nat) (file : List Line) (univ : List Nat) :
 example : (importPeers 0 (load [.noSlash 0, .full 4 2, .bare 5, .full 6 3, .full 5 2, .slashBad 1, .full 7 0, .empty]) (List.range 6)).map (·.id) =
     [2, 3] := by decide
 
+/-- **ps_same_priority_order** for EVERY peerstore file in which every peer's lines are adjacent (any other content:
+    garbage, comments, blank lines, bare addresses, our own address, duplicate lines, several addresses per peer — the
+    hypothesis `contiguous` is the one under which "line order" orders the peers at all; it is the Spec clause's guard):
+    whatever tie-break the fresh host's `PeerInfos` uses, it lists the peers in the order of their first line. -/
+theorem ps_same_priority_order (self : Nat) (file : List Line) (univ : List Nat) (outp : List (Nat × List Nat))
+    (hu : ∀ p ∈ linePeers self (load file), p ∈ univ) (hun : univ.Nodup)
+    (hc : contiguous (linePeers self (load file)) = true)
+    (hout : peerInfosAllowed { self := self, known := importPeers self (load file) univ, peers := univ } outp = true) :
+    outp.map (·.1) = dedupKeepFirst (linePeers self (load file)) := by
+  set L := load file with hL
+  set known2 := importPeers self L univ with hk2
+  set D := dedupKeepFirst (linePeers self L) with hD
+  unfold peerInfosAllowed at hout
+  simp only [Bool.and_eq_true] at hout
+  have hperm := List.isPerm_iff.1 hout.1.1
+  have hsorted := hout.1.2
+  have hDmem : ∀ p, p ∈ D ↔ p ≠ self ∧ ∃ a, Line.full a p ∈ L := fun p => mem_dedupKeepFirst.trans mem_linePeers
+  have hDu : ∀ p ∈ D, p ∈ univ := fun p hp => hu p (mem_dedupKeepFirst.1 hp)
+  have hprio : ∀ p ∈ D, ∀ k, lastIdx p L 0 none = some k → prioOf known2 p = k := by
+    intro p hp k hk'
+    have hps : p ≠ self := ((hDmem p).1 hp).1
+    unfold prioOf
+    rw [hk2, lookup_importPeers, if_pos (hDu p hp)]
+    simp [importedEntry, importPrio, hps, hk']
+  have hmem : ∀ p, p ∈ listed { self := self, known := known2, peers := univ } ↔ p ∈ D := by
+    intro p
+    unfold listed
+    simp only [List.mem_filter, Bool.and_eq_true, bne_iff_ne, Bool.not_eq_true', ne_eq]
+    constructor
+    · rintro ⟨hpu, hps, hadd⟩
+      have hent : importedEntry self L p ≠ none := by
+        intro hnone
+        simp only [addrsOf] at hadd
+        rw [hk2, lookup_importPeers, if_pos hpu, hnone] at hadd
+        simp at hadd
+      have hl : lastIdx p L 0 none ≠ none := by
+        intro hnone
+        apply hent
+        simp [importedEntry, importPrio, hps, hnone]
+      obtain ⟨a, ha⟩ := lastIdx_present p L 0 hl
+      exact (hDmem p).2 ⟨hps, a, ha⟩
+    · intro hp
+      obtain ⟨hps, a, ha⟩ := (hDmem p).1 hp
+      refine ⟨hDu p hp, hps, ?_⟩
+      obtain ⟨k, hk'⟩ := Option.isSome_iff_exists.1 (lastIdx_isSome_of_mem p a L 0 none ha)
+      simp only [addrsOf]
+      rw [hk2, lookup_importPeers, if_pos (hDu p hp)]
+      simp only [importedEntry, importPrio, hps, if_false, hk', Option.map_some, Option.getD_some]
+      have := importedAddrs_ne_nil (self := self) hps ha
+      cases h : importedAddrs self L p with
+      | nil => exact absurd h this
+      | cons _ _ => rfl
+  have hPstrict : D.Pairwise (fun a b => prioOf known2 a < prioOf known2 b) := by
+    refine List.Pairwise.imp_of_mem ?_ (dedup_prio_increasing self L 0 hc)
+    intro p q hp hq ⟨a, b, ha, hb, hab⟩
+    rw [hprio p hp a ha, hprio q hq b hb]
+    exact hab
+  have houtmem : ∀ x, x ∈ outp.map (·.1) ↔ x ∈ D := fun x => (hperm.mem_iff).trans (hmem x)
+  have houtnd : (outp.map (·.1)).Nodup := by
+    rw [hperm.nodup_iff]
+    exact List.Nodup.filter _ hun
+  have hdist : ∀ x ∈ D, ∀ y ∈ D, x = y ∨ prioOf known2 x ≠ prioOf known2 y := by
+    intro x hx y hy
+    rcases pairwise_both hPstrict x hx y hy with h | h | h
+    · exact Or.inl h
+    · exact Or.inr (Nat.ne_of_lt h)
+    · exact Or.inr (Nat.ne_of_gt h)
+  have houtstrict : (outp.map (·.1)).Pairwise (fun a b => prioOf known2 a < prioOf known2 b) := by
+    have h1 := sortedByPrio_pairwise known2 _ hsorted
+    have h2 : (outp.map (·.1)).Pairwise (fun a b => a ≠ b) := houtnd
+    have h3 := List.Pairwise.and h1 h2
+    refine List.Pairwise.imp_of_mem ?_ h3
+    intro a b ha hb ⟨hle, hne'⟩
+    rcases hdist a ((houtmem a).1 ha) b ((houtmem b).1 hb) with h | h
+    · exact absurd h hne'
+    · omega
+  exact strict_sorted_unique (prioOf known2) _ D houtstrict hPstrict houtmem
+
+example : contiguous (linePeers 0 (load [.noSlash 0, .full 4 2, .bare 5, .full 5 2, .full 7 0, .full 6 3, .slashBad 1, .full 6 3])) = true ∧
+    dedupKeepFirst (linePeers 0 (load [.noSlash 0, .full 4 2, .bare 5, .full 5 2, .full 7 0, .full 6 3, .slashBad 1, .full 6 3])) = [2, 3] := by
+  decide
+
 /-! ## Prop-level readings of the Bool checkers -/
 
 /-- Prop reading of the Bool checker `samePinset`: one pin per cid on both sides, same pins. -/
